@@ -154,10 +154,13 @@ class Globals:
             **self.transients.last_seen_obj_by_table,  # local tablenames that have been fulfilled
         }
 
-    def generate_id_for_nickname(self, nickname: str):
+    def generate_id_for_nickname(self, nickname: str, tablename: str = None):
         slot = self.transients.named_slots.get(nickname)
         if slot and slot.status == SlotState.ALLOCATED:
-            return slot.consume_slot()
+            # the id was taken from the counter of the slot's own table:
+            # only a row of that table may use it
+            if tablename is None or slot._tablename == tablename:
+                return slot.consume_slot()
 
     def register_intertable_reference(
         self, table_name_from: str, table_name_to: str, fieldname: str
@@ -542,11 +545,13 @@ class RuntimeContext:
         # check if an ID has already been assigned based on the nickname
         # (due to a forward reference)
         if nickname:
-            rc = self.interpreter.globals.generate_id_for_nickname(nickname)
+            rc = self.interpreter.globals.generate_id_for_nickname(
+                nickname, self.current_table_name
+            )
         # check if an ID has already been assigned based on the tablenmae.
         # (due to a forward reference)
         rc = rc or self.interpreter.globals.generate_id_for_nickname(
-            self.current_table_name
+            self.current_table_name, self.current_table_name
         )
         # otherwise just create a new one
         rc = rc or self.interpreter.globals.id_manager.generate_id(
